@@ -10,6 +10,22 @@ C12_FAST = [f"rt_{w}" for w in W] + [f"pair_{w}" for w in W] + ["rt_f32", "rt_f6
 C12_WIDE = ["pair_u128", "pair_i128"]
 
 PROPS = {
+    "C14": {
+        "verus": ["c14_ids"],
+        "kani": [],
+        "native": [
+            {"name": "type_universe_distinct_and_stable", "bin": "replay_c14", "crate": "replay", "twice": True,
+             "pre": "python3 lib/gen_c14_universe.py out/aux/c14_universe.rs", "tiers": ("quick", "thorough"),
+             "bound": "6006 types of a generated constructor-closed universe (all unary constructors over all leaves, nestings to depth 3, binary constructors in both argument orders, permuted tuples, array lengths, derived user types): ids evaluated on the real crate, pairwise distinct, identical in two separate processes"},
+        ],
+        "witness": witness.c14,
+        "assumptions": [
+            "NOT decided deductively: 'distinct types receive distinct ids' is a collision property of a 256->128 bit mixer (combine) and of a string hash (from_unique_type_name); no sound contract states it (pigeonhole). It is checked only on the bounded universe above (labelled bounded, not counted as proved)",
+            "proved (Verus, all inputs): from_unique_type_name / combine / sipround / read_u64_le are total -- no out-of-bounds index, no overflow, no shift >= 64 -- and use no external or unsafe ingredient, hence are pure functions of their arguments; StableTypeID <-> u128, u128 <-> Compact128, QueryID accessors are lossless",
+            "64-bit usize; strings are at most isize::MAX bytes (Rust invariant)",
+            "not under contract: the Identifiable impl table itself (hundreds of const items), identifiable_derive, cf_name_from_id / keyspace_name_from_id (format!), Query::STABLE_TYPE_ID plumbing in the engine, QueryID::new (associated const: only its composition is a lemma)",
+        ],
+    },
     "C16": {
         "verus": ["c16_policy", "c16_sketch"],
         "kani": [
